@@ -307,6 +307,9 @@ func mkCall(op, key string, who, n int) JCall {
 	switch op {
 	case "AddAnnotation":
 		a.Key, a.Value = key, fmt.Sprintf("a-%d-%d", who, n)
+		if (who+n)%3 == 1 {
+			a.Value = fmt.Sprintf("Ärger-%d-%d-ß", who, n)
+		}
 	case "RemoveAnnotation", "RemoveMount", "RemoveEnv", "RemoveDevice":
 		a.Key = key
 	case "AddMount":
@@ -314,6 +317,10 @@ func mkCall(op, key string, who, n int) JCall {
 		a.Mount = &m
 	case "AddEnv":
 		a.Key, a.Value = key, fmt.Sprintf("e-%d-%d", who, n)
+		if (who+n)%3 == 2 {
+			// not ASCII (ß Ö Ł: second bytes in the C1 range): helpers pass strings on byte for byte
+			a.Value = fmt.Sprintf("Grüße-%d-%d-ÖŁ", who, n)
+		}
 	case "SetArgs", "UpdateArgs":
 		a.Strs = []string{fmt.Sprintf("cmd-p%d", who), fmt.Sprintf("arg%d", n)}
 	case "AddHooks":
